@@ -238,7 +238,7 @@ def oracle(seed, tier):
                              "point": p, "depth": d, "covering": cov, "cmd": q3("W", p, d, props)})
         if si == 0:
             samples.append({"stack_world": json.loads(open(path).read()), "first_query": qs[0] if qs else None})
-    return {"violations": viol[:20], "summary": {"cases": cases, "violations": len(viol), "nontrivial": nontriv}, "samples": samples}
+    return {"violations": trim_violations(viol, 20), "summary": {"cases": cases, "violations": len(viol), "nontrivial": nontriv}, "samples": samples}
 
 
 def replay(rp):
